@@ -30,12 +30,66 @@ Definition sx_out {T} (f : T -> list N -> list sx) (r : res (T * list N) * N) : 
   | (Panic s, k) => XL [XS (B"panic"); sx_N s; sx_N k]
   end.
 
+
+(* canonical form up to hash-map order: NamedUnit::base_units sorted by key
+   (the variables map itself is compared as a multiset by the check) *)
+Fixpoint bytes_leb (a b : bytes) : bool :=
+  match a, b with
+  | [], _ => true
+  | _ :: _, [] => false
+  | x :: a', y :: b' => if x <? y then true else if y <? x then false else bytes_leb a' b'
+  end.
+Fixpoint insert_sorted {V} (kv : bytes * V) (l : list (bytes * V)) : list (bytes * V) :=
+  match l with
+  | [] => [kv]
+  | h :: t => if bytes_leb (fst kv) (fst h) then kv :: l else h :: insert_sorted kv t
+  end.
+Definition sort_keys {V} (l : list (bytes * V)) : list (bytes * V) := fold_right insert_sorted [] l.
+Definition canon_named_unit (u : named_unit) : named_unit :=
+  mkNU (nu_prefix u) (nu_singular u) (nu_plural u) (nu_alias u) (sort_keys (nu_base u)) (nu_scale u).
+Definition canon_number (n : number) : number :=
+  mkNum (n_value n) (map (fun ue => mkUE (canon_named_unit (ue_unit ue)) (ue_exp ue)) (n_unit n))
+        (n_exact n) (n_base n) (n_format n) (n_simpl n).
+Fixpoint canon_value (v : value) : value :=
+  match v with
+  | VNum n => VNum (canon_number n)
+  | VFn p e sc => VFn p (canon_expr e) (canon_oscope sc)
+  | VObject it => VObject (canon_items it)
+  | _ => v
+  end
+with canon_expr (e : expr) : expr :=
+  match e with
+  | ELit v => ELit (canon_value v)
+  | EIdent s => EIdent s
+  | EParens a => EParens (canon_expr a)
+  | EUMinus a => EUMinus (canon_expr a)
+  | EUPlus a => EUPlus (canon_expr a)
+  | EUDiv a => EUDiv (canon_expr a)
+  | EFact a => EFact (canon_expr a)
+  | EBop op a b => EBop op (canon_expr a) (canon_expr b)
+  | EApply a b => EApply (canon_expr a) (canon_expr b)
+  | EApplyFn a b => EApplyFn (canon_expr a) (canon_expr b)
+  | EApplyMul a b => EApplyMul (canon_expr a) (canon_expr b)
+  | EAs a b => EAs (canon_expr a) (canon_expr b)
+  | EFn s a => EFn s (canon_expr a)
+  | EOf s a => EOf s (canon_expr a)
+  | EAssign s a => EAssign s (canon_expr a)
+  | EStatements a b => EStatements (canon_expr a) (canon_expr b)
+  | EEquality q a b => EEquality q (canon_expr a) (canon_expr b)
+  end
+with canon_scope (s : scope) : scope :=
+  match s with Scope id e sc inner => Scope id (canon_expr e) (canon_oscope sc) (canon_oscope inner) end
+with canon_oscope (o : oscope) : oscope :=
+  match o with ONone => ONone | OSome s => OSome (canon_scope s) end
+with canon_items (it : items) : items :=
+  match it with INil => INil | ICons k v r => ICons k (canon_value v) (canon_items r) end.
+
 Definition sx_flags (sz : sizes) (v : value) : list sx :=
   [sx_bool (wfc_value as_names sz v); sx_bool (wfs_value v); sx_bool (has_scope_value v);
    sx_bool (names_ok_value from_names v); sx_N (size_value v)].
 
 Definition sx_entry (sz : sizes) (kv : bytes * value) : sx :=
-  XL (XS (fst kv) :: XS (ser_entry kv) :: sx_flags sz (snd kv)).
+  XL (XS (fst kv) :: XS (ser_entry kv) :: sx_flags sz (snd kv) ++ [XS (ser_entry (fst kv, canon_value (snd kv)))]).
 
 
 (* readable dump of a value tree (debugging aid for replays) *)
